@@ -450,10 +450,11 @@ func directed() []Directed {
 			return []Op{
 				st(3, nil), st(1, evA), st(2, nil), {Kind: "snap"},
 				{Kind: "restartfault"}, // the first access hits a transient read error
-				qu(filtA, 0, 5, 2, 0),  // … and the error is remembered: open finding (C05 L16, query side)
-				st(1, evB),             // a Store fails once and re-arms the initialiser
+				qu(filtA, 0, 5, 2, 0),  // … the next one initialises (before c8ac4a7 the error was remembered)
+				st(1, evB),             // (before c8ac4a7: this Store failed once and re-armed the initialiser)
 				st(1, evB), qu(filtA, 0, 9, 2, 0), qu(filtB, 0, 9, 2, 0),
-				{Kind: "restartfault"}, {Kind: "restart"}, qu(filtB, 0, 9, 2, 0), // a restart re-arms too
+				{Kind: "restartfault"}, st(1, evA), qu(filtA, 0, 9, 2, 0), // a Store right after the failure
+				{Kind: "restartfault"}, {Kind: "snap"}, {Kind: "restart"}, qu(filtB, 0, 9, 2, 0), // a snapshot write right after it
 				{Kind: "restartfault"}, rv(1), rv(1), qu(filtA, 0, 9, 2, 0),
 			}
 		}},
